@@ -19,6 +19,7 @@ transferring spent fuel assemblies from the core to the SFP.
 """
 import itertools
 
+from armi.reactor import grids
 from armi.reactor.excoreStructure import ExcoreStructure
 
 
@@ -47,6 +48,15 @@ class SpentFuelPool(ExcoreStructure):
             If it is not provided, the locator on the Assembly object will be used.
             If the Assembly's loc belongs to ``self.spatialGrid``, it will not be used.
         """
+        if self.spatialGrid is None:
+            # the default pool (a blueprint without a pool system) comes without a grid: give it a
+            # plain square one, wide enough for the assembly, to put the discharged assemblies in
+            pitch = assem[0].getPitch() if len(assem) else None
+            width = max(pitch) if isinstance(pitch, (tuple, list)) else (pitch or 50.0)
+            self.spatialGrid = grids.CartesianGrid.fromRectangle(
+                width, width, numRings=7, armiObject=self
+            )
+
         if loc is not None and loc.grid is not self.spatialGrid:
             raise ValueError(
                 f"An assembly cannot be added to {self} using a spatial locator from another grid."
